@@ -765,8 +765,10 @@ skipRule:
 	for i := n - 1; i >= 0; i-- {
 		rule := rules[i]
 
-		// Remove rules with selectors that don't apply to anything (e.g. ":is()")
-		if r, ok := rule.Data.(*css_ast.RSelector); ok && allSelectorsAreDead(r.Selectors) {
+		// Remove rules with selectors that don't apply to anything (e.g. ":is()").
+		// Rules with nested rules are kept since a nested "@layer" rule still sets
+		// the layer order even if nothing matches.
+		if r, ok := rule.Data.(*css_ast.RSelector); ok && allSelectorsAreDead(r.Selectors) && !containsNestedRules(r.Rules) {
 			continue skipRule
 		}
 
